@@ -50,11 +50,14 @@ fn parse(grm: &YaccGrammar<u32>, st: &lrtable::StateTable<u32>, names: &[&str], 
     let lexer: LRNonStreamingLexer<DefaultLexerTypes<u32>> = LRNonStreamingLexer::new(&src, lexemes, cfgrammar::NewlineCache::from_str(&src).unwrap());
     let pb = RTParserBuilder::new(grm, st).recoverer(rec);
     let (t, errs) = pb.parse_generictree(&lexer);
-    // with recovery on, which of several equally ranked repairs is applied is unspecified: compare
-    // the tree only for error-free parses, and the repair lists as sorted sets
-    let mut pps: Vec<Vec<String>> = errs.iter().map(|e| { let mut l: Vec<String> = e.pp(&lexer, &|t| grm.token_epp(t)).lines().map(|x| x.trim().splitn(2, ": ").last().unwrap_or("").to_string()).collect(); l.sort(); l }).collect();
-    pps.sort();
-    format!("{:?} / {} errors / {:?}", if errs.is_empty() { t.map(|n| n.pp(grm, &src)) } else { None }, errs.len(), pps)
+    // With recovery on only the errors' positions are compared: which of several equally ranked repairs
+    // is applied is unspecified, and under the interpreter the 500 ms wall-clock recovery budget runs out
+    // at different points in different runs (so even WHETHER repairs are found is timing dependent).
+    if matches!(rec, RecoveryKind::CPCTPlus) {
+        let first = errs.first().map(|e| e.pp(&lexer, &|t| grm.token_epp(t)).split('.').next().unwrap_or("").to_string());
+        return format!("first error: {first:?}");
+    }
+    format!("{:?} / {} errors", t.map(|n| n.pp(grm, &src)), errs.len())
 }
 
 fn main() {
